@@ -47,6 +47,11 @@ fn transforms() -> Vec<(&'static str, Matrix3<f32>)> {
         ("translate", Matrix3::new_translation(&nalgebra::Vector2::new(0.25, -0.5))),
         ("rot90", Matrix3::new(0.0, -1.0, 0.0, 1.0, 0.0, 0.0, 0.0, 0.0, 1.0)),
         ("anisotropic + shear", Matrix3::new(1.5, 0.25, 0.1, 0.0, 0.75, -0.2, 0.0, 0.0, 1.0)),
+        // the other bottom-row patterns of a homogeneous 2D matrix: (0,0,w) and (a,b,1)
+        // (rendered at z = 0 only: whether the slice height takes part in the
+        // homogeneous divide is not something the property speaks about)
+        ("homogeneous scale (0,0,2)", Matrix3::new(1.0, 0.0, 0.5, 0.0, 1.0, -0.25, 0.0, 0.0, 2.0)),
+        ("perspective (1/8,-1/16,1)", Matrix3::new(1.0, 0.0, 0.0, 0.0, 1.0, 0.0, 0.125, -0.0625, 1.0)),
     ]
 }
 
@@ -126,7 +131,17 @@ fn render_case<F: Backend + RenderHints>(
     let (mut exact_px, mut nan_px) = (0u64, 0u64);
     for j in 0..h as usize {
         for i in 0..w as usize {
-            let p = mat * nalgebra::Vector3::new(i as f64, j as f64, 1.0);
+            let ph = mat * nalgebra::Vector3::new(i as f64, j as f64, 1.0);
+            // homogeneous divide (w = 1 for affine transforms)
+            let wdiv = ph[2];
+            if wdiv.abs() < 1e-4 {
+                // the sample lies on the projective map's line at infinity: it has no
+                // model position
+                total += 1;
+                undecidable += 1;
+                continue;
+            }
+            let p = nalgebra::Vector3::new(ph[0] / wdiv, ph[1] / wdiv, 1.0);
             let vars = [p[0], p[1], z as f64, 0.0, 0.0, free];
             let (v, mag, exact) = scene::eval64x(&s.prog, &vars);
             total += 1;
@@ -134,7 +149,7 @@ fn render_case<F: Backend + RenderHints>(
             // exact case: the position and every intermediate are f32-representable,
             // so the renderer computes exactly v: its sign, an exact zero (of either
             // sign: not negative) and a NaN are certain, not within a tolerance
-            let pex = {
+            let pex = wdiv == 1.0 && {
                 let ex = |x: f64| x.is_finite() && (x as f32) as f64 == x;
                 (0..2).all(|r| {
                     let t = [mat[(r, 0)] * i as f64, mat[(r, 1)] * j as f64, mat[(r, 2)]];
@@ -268,6 +283,10 @@ fn scene_unit<F: Backend + RenderHints>(cx: &mut Cx, tier: Tier, si: usize, jit_
                         (0.0, true, false),
                         (0.25, true, true),
                     ] {
+                        let projective = m[(2, 0)] != 0.0 || m[(2, 1)] != 0.0 || m[(2, 2)] != 1.0;
+                        if projective && z != 0.0 {
+                            continue;
+                        }
                         // the JIT runs on a sub-product (every other size pair)
                         if jit_subset && (w as usize + h as usize) % 2 == 1 && tier == Tier::Quick {
                             continue;
@@ -299,6 +318,8 @@ fn scene_unit<F: Backend + RenderHints>(cx: &mut Cx, tier: Tier, si: usize, jit_
     for &(w, h) in big {
         for (tname, m) in transforms().into_iter().step_by(2) {
             for (z, pp, threads) in [(0.0f32, false, 0), (0.25, true, 1), (0.0, false, 2)] {
+                let projective = m[(2, 0)] != 0.0 || m[(2, 1)] != 0.0 || m[(2, 2)] != 1.0;
+                let z = if projective { 0.0 } else { z };
                 let sid = sub;
                 sub += 1;
                 if !cx.case(sid) {
@@ -331,7 +352,7 @@ impl Check for C06 {
     }
     fn meta(&self, tier: Tier) -> Meta {
         Meta {
-            rule: "case = one render; full Cartesian product of 13 shapes (circle, rectangle, half-plane, union / intersection / difference, ring, a min-chain of 4 circles that simplifies differently per tile, constants +1 and -1, x*y, a z-dependent sphere slice, a shape with a free variable) x image sizes (w,h) x tile-size chains x 5 view transforms (identity, scale, translation, 90-degree rotation, anisotropic + shear) x (z, pixel-perfect, threads) in {(0,off,none),(0.25,off,pool),(0,on,none),(0.25,on,pool)} x backend {VM, JIT}; plus every shape with the backend's DEFAULT tile sizes on images larger than one root tile (130x70, 33x257; thorough also 129x129, 256x128, 200x131) with no pool / stand-in pool / ThreadPool::Global; oracle: for every pixel (i,j) the f64 value of the program at cfg.mat()*(i,j,1): decidable pixels (|v| > 2e-5*(1+largest intermediate)) must satisfy inside() <=> v < 0; in pixel-perfect mode every pixel must be a Value within 2e-4*(1+magnitude) of v; image dimensions must equal the request; non-trivial = every render".into(),
+            rule: "case = one render; full Cartesian product of 13 shapes (circle, rectangle, half-plane, union / intersection / difference, ring, a min-chain of 4 circles that simplifies differently per tile, constants +1 and -1, x*y, a z-dependent sphere slice, a shape with a free variable) x image sizes (w,h) x tile-size chains x 7 view transforms (identity, scale, translation, 90-degree rotation, anisotropic + shear, and at z = 0 the homogeneous bottom rows (0,0,2) and (1/8,-1/16,1)) x (z, pixel-perfect, threads) in {(0,off,none),(0.25,off,pool),(0,on,none),(0.25,on,pool)} x backend {VM, JIT}; plus every shape with the backend's DEFAULT tile sizes on images larger than one root tile (130x70, 33x257; thorough also 129x129, 256x128, 200x131) with no pool / stand-in pool / ThreadPool::Global; oracle: for every pixel (i,j) the f64 value of the program at cfg.mat()*(i,j,1): decidable pixels (|v| > 2e-5*(1+largest intermediate)) must satisfy inside() <=> v < 0; in pixel-perfect mode every pixel must be a Value within 2e-4*(1+magnitude) of v; image dimensions must equal the request; non-trivial = every render".into(),
             bounds: match tier {
                 Tier::Quick => "sizes {1,3,4,5,8,9,17}^2, tile chains [4],[8,4],[8,2],[16,4]; JIT on every other size pair".into(),
                 Tier::Thorough => "sizes {1,2,3,4,5,7,8,9,15,16,17,20,33}^2, all 15 valid chains over {16,8,4,2}".into(),
